@@ -157,12 +157,16 @@ class C17:
         for e in s.calls:
             f = e.term[1]
             if f == NP("arange"):
-                args = list(e.term[2]) + [v for n, v in e.term[3] if n != "dtype"]
                 esite = f"{self.file}:{e.lineno} extend_dim_width"
-                if all(is_int_term(a, int_atoms) for a in args):
-                    ctx.ok("R17.1", esite, f"integer-count generator {show(e.term)[:70]}")
-                else:
-                    which = [p for p in ("start", "center", "end") if any(c == ("cmp", "eq", pos, ("const", p)) for c in conjuncts(e.live))]
+                # one instance per position the generator serves (a generator shared by two positions counts for both)
+                served = [p for p in ("start", "center", "end")
+                          if peval(("and", tuple(c for c in conjuncts(e.live) if pos in set(walk(c)))), {pos: p}) != ("const", False)] or [None]
+                for p_ in served:
+                    args = [peval(a, {pos: p_}) if p_ is not None else a for a in list(e.term[2]) + [v for n, v in e.term[3] if n != "dtype"]]
+                    if all(is_int_term(a, int_atoms) for a in args):
+                        ctx.ok("R17.1", esite, f"integer-count generator {show(e.term)[:70]} (position={p_!r})")
+                        continue
+                    which = [p_] if p_ is not None else []
                     ctx.bad("R17.1", self.file, "extend_dim_width",
                             f"np.arange with float bounds in branch position=={which[0] if which else '?'}: {show(e.term)[:90]}",
                             "new coordinates are generated by np.arange(a, a +/- n*step, +/-step) over floats: numpy documents that the "
@@ -194,6 +198,24 @@ class C17:
         if newc is None:
             ctx.undec("R17.6", site, "reindex target is not {dim: coords}")
             return
+        # the original labels must be reused verbatim: reindex matches labels exactly, a regenerated label that differs in the
+        # last bit turns the original sample into the fill value
+        reused = True
+        for position in ("start", "center", "end"):
+            t = peval(newc, {pos: position})
+            pieces = None
+            if t[0] == "call" and t[1] in (NP("concatenate"), NP("hstack"), NP("append"), NP("r_")) and t[2]:
+                pieces = t[2][0][1] if t[2][0][0] in ("list", "tuple") and t[1] != NP("append") else t[2]
+            if pieces is None or sum(1 for x in pieces if x == coords) != 1:
+                reused = False
+                ctx.bad("R17.6", self.file, "extend_dim_width", f"position={position!r}: new axis = {show(t)[:70]}",
+                        f"position={position!r}: the new axis is `{show(t)[:110]}`, which does not contain the original coordinate array "
+                        f"itself: the labels of the existing samples are regenerated instead of reused, and reindex (exact label "
+                        f"match) replaces every sample whose regenerated label differs in the last bit by the fill value",
+                        re[0].lineno, witness={"axis": "0.1 * arange(10) + 0.3", "effect": "original samples become fill_value"})
+                break
+        if reused:
+            ctx.ok("R17.6", site, "the original coordinate array is one piece of the new axis for every position (labels reused, not regenerated)")
         cur = [10.0, 10.25, 10.5, 10.75]
         n_cases = 0
         floaty = False
@@ -503,7 +525,7 @@ def run(ctx: Ctx):
     ctx.rule("R17.3", "range guards exact", 1)
     ctx.rule("R17.4", "adjust_dim_width dispatch and forwarding", 1)
     ctx.rule("R17.5", "width-based crop slices", 1)
-    ctx.rule("R17.6", "placement of the original data, lattice continuation, fill value", 4)
+    ctx.rule("R17.6", "placement of the original data, lattice continuation, fill value", 5)
     c = C17(ctx)
     c.check_extend_width()
     c.check_extend_dim()
